@@ -284,6 +284,16 @@ def check_C12(cx):
         for seq in itertools.product(alphabet, repeat=n):
             hists.append(hist_for([(0, w, v) for w, v in seq]))
             nseq += 1
+    # per dimension, every sequence of three calls (thorough: four) of the setters that touch it with the documented values: a transition
+    # that depends on how the current state was reached (NASM, SMART, NASM ...) needs more than two calls
+    for dim_setters in (["mov", "all"], ["swap", "sib", "all"], ["nobase", "sib", "all"]):
+        alpha_d = [(w, v) for w in dim_setters for v in (0, 1, 2)]
+        for n in ((3,) if cx.tier == "quick" else (3, 4)):
+            for seq in itertools.product(alpha_d, repeat=n):
+                if n == 4 and zlib.crc32(repr(seq).encode()) % 3:
+                    continue
+                hists.append(hist_for([(0, w, v) for w, v in seq]))
+                nseq += 1
     # random longer ones, also negative / large values and two live instances
     for _ in range(300 if cx.tier == "quick" else 3000):
         n = r.choice([3, 4, 6, 10])
@@ -690,6 +700,19 @@ def check_C13(cx):
                 text = b"\n".join([b"nop"] * 0 + [bylen[ln], bylen[lens[(ln + c) % len(lens)]]])
                 hists.append(["N 0 300 cc", "K 0 %d" % c, "O 0 %d" % p0, "A 0 %s" % cases.hexs(text), "G 0", "D 0 0 300", "F 0"])
                 meta.append((14, text, c, p0))
+    # library-managed buffers with chunk sizes at and above the current buffer length: the boundary lies in memory the call itself
+    # has to grow into (explicit far offsets just below the boundary, and a long program that reaches it)
+    mov10 = b"mov rax, 0x1122334455667788"
+    for c in (6020, 6021, 6023, 6033, 12020, 12021, 50000):
+        for d in (1, 5, 9, 13):
+            p0 = c - d
+            text = b"\n".join([mov10, b"add qword [r12+r13*8+0x11223344], 0x55667788", mov10])
+            hists.append(["N 0 -", "K 0 %d" % c, "O 0 %d" % p0, "A 0 %s" % cases.hexs(text), "G 0", "D 0 %d %d" % (p0, p0 + 90), "F 0"])
+            meta.append((14, text, c, p0, p0))
+    for c in (6020, 6021, 6022, 6023, 6030):
+        text = b"\n".join([b"add qword [r12+r13*8+0x11223344], 0x55667788"] * 520)
+        hists.append(["N 0 -", "K 0 %d" % c, "O 0 0", "A 0 %s" % cases.hexs(text), "G 0", "D 0 5980 6100", "F 0"])
+        meta.append((14, text, c, 0, 5980))
     nstruct = len(hists)
     for _ in range(500 if cx.tier == "quick" else 5000):
         c = r.choice([2, 3, 4, 5, 7, 8, 9, 13, 16, 21, 32, 64])
@@ -736,7 +759,8 @@ def check_C13(cx):
         pos += len(h)
         if m is None or len(o) < len(h):
             continue
-        opt, text, c, p0 = m
+        opt, text, c, p0 = m[:4]
+        win = m[4] if len(m) > 4 else 0          # where the dump starts
         codes, bad = line_codes(res, opt, text)
         if bad is not None:
             continue
@@ -745,7 +769,10 @@ def check_C13(cx):
             npadded += 1
         rc = o[3].split()[0]
         got = bytes.fromhex(o[5]) if o[5] != "-" else b""
-        ok = rc == "0" and int(o[4]) == p0 + len(exp) and got[p0:p0 + len(exp)] == exp
+        lo, hi = max(win, p0), min(win + len(got), p0 + len(exp))
+        ok = rc == "0" and int(o[4]) == p0 + len(exp) and hi > lo and got[lo - win:hi - win] == exp[lo - p0:hi - p0]
+        if len(m) > 4:
+            exp, got, p0 = exp[lo - p0:hi - p0], got[lo - win:], 0       # (for the report below)
         if not ok and nviol < 5:
             nviol += 1
             cx.violations.append({"kind": "fitting", "chunk": c, "start_offset": p0, "program": text.decode("latin1"),
@@ -1023,6 +1050,27 @@ def check_C08(cx):
                 hists.append(twin(ops_for))
                 meta.append(("far-offset", k, warm, mode))
     ops, out = tie_api_mod_lf(cx, impl, hists, "C08 internal buffer vs large caller buffer")
+    # failing-input search when the recorded length of a library-managed buffer is not the model's: a length that drifts from the mapping
+    # shows as a refused or crashing growth once the program is long enough — programs of 120 kB, 420 kB and 1.2 MB of code
+    if any(b.get("op", "").startswith("B ") for b in cx.broken):
+        for nlines in (60000, 210000, 600000):
+            prog = b"xor eax, eax\n" + b"inc eax\n" * nlines + b"ret\n"
+            want = "31c0" + "ffc0" * nlines + "c3"
+            try:
+                rc_, o_, e_ = alv.run_driver(impl, ["N 0 -", "A 0 %s" % cases.hexs(prog), "G 0", "D 0 0 %d" % (2 * nlines + 3), "F 0"])
+            except Exception as ex:
+                rc_, o_, e_ = -1, [], str(ex)
+            bad_long = None
+            if rc_ != 0 or len(o_) < 4:
+                bad_long = "the process does not survive the long program (exit %s)" % rc_
+            elif o_[1].split()[0] != "0":
+                bad_long = "a program of %d bytes of code is refused on a buffer the library manages (return value %s, offset %s)" % (2 * nlines + 3, o_[1].split()[0], o_[2])
+            elif o_[3] != want:
+                bad_long = "the code of the long program is not what its lines assemble to"
+            if bad_long:
+                cx.violations.append({"kind": "long-program", "lines": nlines + 2, "program": "xor eax, eax; %d x inc eax; ret" % nlines, "what": bad_long,
+                                      "stderr": (e_ or "")[-300:]})
+                break
     # oracle: internal and caller-buffer runs agree op by op (return values, offsets, dumped bytes)
     pos, nviol, ngrow = 0, 0, 0
     for m, h in zip(meta, hists):
@@ -1210,6 +1258,30 @@ def check_C15(cx):
                                           "than on a fresh instance in a fresh process (state kept outside the instances)",
                                   "history": [x[:200] for x in h]})
     cx.oblige("final calls of %d histories agree with the same call on a fresh instance in a new process" % nalone, nalone > 0 or not sample)
+    # an earlier call that failed because the OS refused to grow the buffer (fault harness of C17): the next call at an explicit offset is
+    # the call on a fresh instance
+    try:
+        wrap = "-Wl," + ",".join("--wrap=" + w for w in WRAPPED)
+        fimpl = build_impl(cx, name="faultdrv", flavour="plain", extra_flags=(wrap,))
+    except Exception as ex:
+        fimpl = None
+        cx.oblige("fault harness builds", False, str(ex))
+    nfault = 0
+    if fimpl:
+        ftmp = os.path.join(alv.CACHE, "faulttmp15")
+        os.makedirs(ftmp, exist_ok=True)
+        for T in (100, 5990, 7000, 9000, 13000, 30000):
+            for k in (1, 2, 4):
+                rc_, ended_, kv_, err_ = run_fault(fimpl, "growthafter:%d" % T, "mremap", k, ftmp)
+                nfault += 1
+                if rc_ != 0 or not ended_:
+                    cx.violations.append({"kind": "history-fault-crash", "scenario": "growthafter:%d" % T, "fault": "mremap#%d" % k, "rc": rc_, "stderr": err_,
+                                          "what": "after a call that failed because growth was refused, asm_set_offset(%d) and an assemble call crash" % T})
+                elif kv_.get("fired") == "1" and kv_.get("same_as_fresh") != "1":
+                    cx.violations.append({"kind": "history-fault", "scenario": "growthafter:%d" % T, "fault": "mremap#%d" % k, "observed": kv_,
+                                          "what": "after a call that failed because growth was refused, the call at an explicit offset differs from the "
+                                                  "same call on a fresh instance"})
+        cx.oblige("%d histories with a refused growth in front of a call at an explicit offset ran" % nfault, nfault > 0)
     # library-managed buffers: how much the instance has assembled (and grown) before must not matter for a call at an explicit offset
     ihists = []
     fin = b"mov rax, 0x1122334455667788\nadd rax, rcx\nret"
@@ -1647,7 +1719,9 @@ C11_VALUES = [0, 1, 5, 0x7f, 0x80, 0xff, 0x100, 0x7fff, 0x8000, 0xffff, 0x10000,
 def mov_spellings(v):
     """(text, padded): the spellings of an immediate; padded = hexadecimal with all 16 digits"""
     out = [("%d" % v, False), ("0x%x" % v, len("%x" % v) >= 16), ("0x%016x" % v, True), ("0x%08x" % v, len("%08x" % v) >= 16),
-           ("0X%X" % v, len("%x" % v) >= 16), ("0x%016X" % v, True), ("0x0%016x" % v, True), ("0x%015x" % v, len("%015x" % v) >= 16)]
+           ("0X%X" % v, len("%x" % v) >= 16), ("0x%016X" % v, True), ("0x0%016x" % v, True), ("0x%015x" % v, len("%015x" % v) >= 16),
+           # long tokens that are NOT hexadecimal with all 16 digits: decimal numerals padded to 18 characters and more
+           ("%018d" % v, False), ("%024d" % v, False), ("%017d" % v, False)]
     if v >= 1 << 63:
         out.append(("-%d" % ((1 << 64) - v), False))
         out.append(("-0x%x" % ((1 << 64) - v), False))
@@ -2233,6 +2307,28 @@ def check_enc(cx):
         if idx < len(out2) and out2[idx] != "90" + b:
             groups.setdefault((items[t].split()[0], pattern_of(items[t]), "second assembly after padding differs"), []).append(
                 (t, o, out2[idx], "assembled once: " + b))
+    if cx.prop == "C05":
+        # far-memory targets: the width of the far pointer (REX.W) is a matter of the mnemonic and the size keyword, never of the address
+        # registers — every `call far` / `jmp far` line with the same keyword carries the same REX.W
+        farw = {}
+        for t in texts:
+            mfar = re.match(r"^(call|jmp) far (qword |dword |word )?\[", t)
+            if not mfar:
+                continue
+            for o in opts_of(t):
+                rc, b = res.get((o, t.encode()), ("1", "-"))
+                if rc != "0" or b == "-":
+                    continue
+                bs_ = bytes.fromhex(b)
+                i_ = 1 if bs_[:1] == b"\x67" else 0
+                w_ = bool(0x40 <= bs_[i_] <= 0x4f and bs_[i_] & 8)
+                farw.setdefault((mfar.group(1), mfar.group(2) or ""), {}).setdefault(w_, []).append((t, o, b))
+        for (mn_, kw_), byw in farw.items():
+            if len(byw) == 2:
+                minority = min(byw.values(), key=len)
+                t_, o_, b_ = minority[0]
+                groups.setdefault((mn_ + " far", "m", "far pointer width (REX.W) differs from the other %s far %slines" % (mn_, kw_)), []).append(
+                    (t_, o_, b_, "%d lines with REX.W = %s, %d without" % (len(byw.get(True, [])), "1", len(byw.get(False, [])))))
     if cx.prop == "C02":
         # an immediate that does not fit the destination must not cost the line its memory operand: same bytes in front of the immediate
         # field as with the immediate 5 (fixed defect 4fe4638: `mov qword [rax], 0x100000000` became `mov rax, imm64`)
@@ -2275,7 +2371,7 @@ def check_enc(cx):
         mkeys, mexp = [], []
         for v in vals:
             for n in ([rr.randrange(16), rr.randrange(16)] if quick else range(16)):
-                pad = rr.choice([0, 0, 1, 3])
+                pad = rr.choice([0, 0, 1, 3, 20])
                 for sp in range(4):
                     if sp == 0:
                         tok, val, full = "0x" + "0" * pad + "%x" % v, v, len("%x" % v) + pad >= 16
